@@ -22,7 +22,8 @@ def submission_main_code(self):
 
 @spec
 def count_newlines(text):
-    return seq_len(split(text, "\n")) - 1
+    """line breaks as the Python parser counts them: \\n, \\r\\n and a lone \\r (str_count stands for str.count)"""
+    return str_count(text, "\n") + str_count(text, "\r") - str_count(text, "\r\n")
 
 
 @spec
@@ -164,10 +165,11 @@ def stop_sections(report=None):
     let(src=source_data(report))
     let(top=item(at(src, 'substitutions'), nitems(at(src, 'substitutions')) - 1))
     modifies(mapping(src), items(at(src, 'substitutions')), items(report.groups), mapping(report.submission.files),
-             report.submission.main_file)
+             report.submission.main_file, mapping(report.submission.line_offsets))
     raises_nothing()
     ensures("original_text_restored", report.submission.main_code == old(top.code)
             and report.submission.main_file == old(top.filename))
+    ensures("whole_file_lines_are_not_shifted", eqv(at(report.submission.line_offsets, report.submission.main_file), 0))
     ensures("stack_shrinks", nitems(at(src, 'substitutions')) == old(nitems(at(src, 'substitutions'))) - 1)
     ensures("group_closed", at(src, 'section_group') is None)
 
@@ -182,7 +184,7 @@ def stop_any_sections(report=None):
     let(active=nitems(at(src, 'substitutions')) > 0)
     let(top=item(at(src, 'substitutions'), nitems(at(src, 'substitutions')) - 1))
     modifies(mapping(src), items(at(src, 'substitutions')), items(report.groups), mapping(report.submission.files),
-             report.submission.main_file)
+             report.submission.main_file, mapping(report.submission.line_offsets))
     raises_nothing()
     ensures("original_text_restored_whenever_sections_are_active", implies(active,
             report.submission.main_code == old(top.code) and report.submission.main_file == old(top.filename)
